@@ -105,7 +105,10 @@ func smallOrderEncodings() ([]string, error) {
 	return out, nil
 }
 
-func c14(c *an.Check) {
+// lowOrderClassifier decides the small-order classifier itself (shared by C14 and by every property whose signature
+// verification rejects small-order keys through it): (TABLE) the rejection table equals the derived 8-torsion encodings;
+// (SIGNBIT) the classifier ignores the sign bit of the input's last byte.
+func lowOrderClassifier(c *an.Check) {
 	p := c.P
 	tp := p.TPkg("util/extra25519")
 	if tp == nil {
@@ -191,46 +194,11 @@ func c14(c *an.Check) {
 	c.Require(len(missing) == 0 && len(extra) == 0 && len(rows) == len(want), "TABLE", "extra25519 small-order table equals the derived set of 8-torsion encodings", p.Func("util/extra25519", "", "IsEdLowOrder"), "", len(rows)+len(want),
 		fmt.Sprintf("%d rows == %d encodings derived from the curve equation with math/big", len(rows), len(want)),
 		fmt.Sprintf("table differs from the derived set: missing %v, not small-order %v (rows %d, derived %d)", missing, extra, len(rows), len(want)))
-	// the classifier consults the table for all 32 bytes: it reads the table (structure only, no idiom matching)
 	lo := p.Func("util/extra25519", "", "IsEdLowOrder")
-	conv := p.Func("util/extra25519", "", "PublicKeyToCurve25519")
-	if lo == nil || conv == nil {
-		c.Undecided("GATE", "extra25519.PublicKeyToCurve25519", nil, "unresolved anchor")
+	if lo == nil {
+		c.Undecided("SIGNBIT", "extra25519.IsEdLowOrder", nil, "unresolved anchor")
 		return
 	}
-	c.Gate(an.GateSpec{Construct: "extra25519.PublicKeyToCurve25519 valid-return", Fn: conv,
-		Sink: func(s *an.State, ins ssa.Instruction) bool {
-			ret, ok := ins.(*ssa.Return)
-			return ok && !s.IsFalse(s.RetVal(ret, 1))
-		},
-		Reqs: []an.Req{
-			{Name: "IsEdLowOrder(input) is false", Holds: func(s *an.State, at ssa.Instruction) bool {
-				for _, call := range an.Calls(conv, an.R("util/extra25519", "", "IsEdLowOrder")) {
-					if s.IsFalse(call) && an.IsParam(an.Strip(call.Call.Args[0]), 0) {
-						return true
-					}
-				}
-				return false
-			}},
-			an.CallOK("edwards25519 SetBytes ok", an.X("filippo.io/edwards25519", "Point", "SetBytes")),
-		}})
-	c.EachReturn("PROVENANCE", "extra25519.PublicKeyToCurve25519 converts the decoded input point", conv, "BytesMontgomery of SetBytes(input)", func(s *an.State, ret *ssa.Return) string {
-		if s.IsFalse(s.RetVal(ret, 1)) {
-			if !s.IsNil(s.RetVal(ret, 0)) {
-				return "an invalid verdict is returned together with key bytes"
-			}
-			return ""
-		}
-		bm := an.ResultCallTo(s.RetVal(ret, 0), an.X("filippo.io/edwards25519", "Point", "BytesMontgomery"))
-		if bm == nil {
-			return "valid return does not yield BytesMontgomery of the decoded point"
-		}
-		sb := an.ResultCallTo(s.Canon(bm.Call.Args[0]), an.X("filippo.io/edwards25519", "Point", "SetBytes"))
-		if sb == nil || !an.IsParam(an.Strip(sb.Call.Args[1]), 0) {
-			return "the converted point is not decoded from the input parameter"
-		}
-		return ""
-	})
 	// SIGNBIT: the table holds encodings with the sign bit cleared, so the classifier may only look at the input's
 	// last byte through a 0x7f mask: every read ge[idx] for which the path does not establish idx < 31 must be
 	// masked before use (a necessary condition; the accumulate/compare idiom itself is not pattern-matched).
@@ -283,6 +251,51 @@ func c14(c *an.Check) {
 			}
 			return "input reads not found / no masked read of the last byte (anchor drift)"
 		}())
+}
+
+func c14(c *an.Check) {
+	p := c.P
+	lowOrderClassifier(c)
+	// the classifier consults the table for all 32 bytes: it reads the table (structure only, no idiom matching)
+	lo := p.Func("util/extra25519", "", "IsEdLowOrder")
+	conv := p.Func("util/extra25519", "", "PublicKeyToCurve25519")
+	if lo == nil || conv == nil {
+		c.Undecided("GATE", "extra25519.PublicKeyToCurve25519", nil, "unresolved anchor")
+		return
+	}
+	c.Gate(an.GateSpec{Construct: "extra25519.PublicKeyToCurve25519 valid-return", Fn: conv,
+		Sink: func(s *an.State, ins ssa.Instruction) bool {
+			ret, ok := ins.(*ssa.Return)
+			return ok && !s.IsFalse(s.RetVal(ret, 1))
+		},
+		Reqs: []an.Req{
+			{Name: "IsEdLowOrder(input) is false", Holds: func(s *an.State, at ssa.Instruction) bool {
+				for _, call := range an.Calls(conv, an.R("util/extra25519", "", "IsEdLowOrder")) {
+					if s.IsFalse(call) && an.IsParam(an.Strip(call.Call.Args[0]), 0) {
+						return true
+					}
+				}
+				return false
+			}},
+			an.CallOK("edwards25519 SetBytes ok", an.X("filippo.io/edwards25519", "Point", "SetBytes")),
+		}})
+	c.EachReturn("PROVENANCE", "extra25519.PublicKeyToCurve25519 converts the decoded input point", conv, "BytesMontgomery of SetBytes(input)", func(s *an.State, ret *ssa.Return) string {
+		if s.IsFalse(s.RetVal(ret, 1)) {
+			if !s.IsNil(s.RetVal(ret, 0)) {
+				return "an invalid verdict is returned together with key bytes"
+			}
+			return ""
+		}
+		bm := an.ResultCallTo(s.RetVal(ret, 0), an.X("filippo.io/edwards25519", "Point", "BytesMontgomery"))
+		if bm == nil {
+			return "valid return does not yield BytesMontgomery of the decoded point"
+		}
+		sb := an.ResultCallTo(s.Canon(bm.Call.Args[0]), an.X("filippo.io/edwards25519", "Point", "SetBytes"))
+		if sb == nil || !an.IsParam(an.Strip(sb.Call.Args[1]), 0) {
+			return "the converted point is not decoded from the input parameter"
+		}
+		return ""
+	})
 	// every caller hands over exactly 32 bytes (IsEdLowOrder indexes ge[0..31])
 	n := 0
 	for _, fn := range p.AllRepoFuncs() {
